@@ -379,9 +379,9 @@ def generate(seed, tier):
     big = tier == "thorough"
     cases = []
     cases += guard_grid(rng, tier)
-    cases += guard_random(rng, 20000 if big else 3000)
-    cases += norm_tie(rng, 40000 if big else 4000)
-    cases += explore(rng, 3000 if big else 300)
+    cases += guard_random(rng, 100000 if big else 10000)
+    cases += norm_tie(rng, 200000 if big else 20000)
+    cases += explore(rng, 40000 if big else 3000)
     return cases
 
 
